@@ -76,6 +76,10 @@ func immutAVPs(kind string, alt bool) []*diam.AVP {
 			return diam.NewAVP(9017, 0x40, 0, datatype.IPv6(b(0x20, 1, 0xd, 0xb8, 1, 2, 3, 4, 5, 6, 7, 8, 9, 10, 11, 12)))
 		case "octets":
 			return diam.NewAVP(9010, 0x40, 0, datatype.OctetString(b(1, 2, 3, 4, 5, 6, 7)))
+		case "octets300": // long enough for any size-dependent decoding path, still inside the 1 KiB pooled buffer
+			return diam.NewAVP(9010, 0x40, 0, datatype.OctetString(bytes.Repeat(b(0x41), 300)))
+		case "utf8300":
+			return diam.NewAVP(9011, 0x40, 0, datatype.UTF8String(bytes.Repeat(b('q'), 300)))
 		case "utf8":
 			return diam.NewAVP(9011, 0x40, 0, datatype.UTF8String(b('a', 'b', 'c', 'd', 'e')))
 		case "u32":
